@@ -722,7 +722,17 @@ def _str_method(s, name):
         c = list(str_chars(s))
         return mk_str([ord(fill)] * max(0, n - len(c)) + c)
 
+    def concrete_only(fn):
+        def f(ex, *a):
+            if isinstance(s, str) and all(isinstance(x, (str, int)) for x in a):
+                return getattr(s, fn)(*a)
+            raise Unsupported('str.%s on a symbolic string' % fn)
+        return f
+
     table = {'strip': strip, 'lstrip': lstrip, 'rstrip': rstrip, 'startswith': startswith,
+             'capitalize': concrete_only('capitalize'), 'title': concrete_only('title'), 'find': concrete_only('find'),
+             'isalpha': concrete_only('isalpha'), 'isupper': concrete_only('isupper'), 'islower': concrete_only('islower'),
+             'zfill': concrete_only('zfill'), 'center': concrete_only('center'), 'index': concrete_only('index'),
              'endswith': endswith, 'lower': lower, 'upper': upper, 'format': fmt, 'count': count,
              'split': split, 'join': join, 'isdigit': isdigit, 'replace': replace,
              'ljust': ljust, 'rjust': rjust}
@@ -745,9 +755,9 @@ def _list_method(lst, name):
                 return None
         raise PyRaise('ValueError', 'list.remove(x): x not in list')
 
-    def index(ex, x):
+    def index(ex, x, start=0):
         for i, y in enumerate(lst):
-            if y is x or ex.truth(ex.equals(y, x)):
+            if i >= start and (y is x or ex.truth(ex.equals(y, x))):
                 return i
         raise PyRaise('ValueError', 'not in list')
 
